@@ -7,27 +7,35 @@ META = {
                   "getters/setters and of the YAML text SaveToStream writes / LoadFromStream reads (scalar-style "
                   "policy and flow depth regenerated from config_data.cc on every run) + byte-exact differential run "
                   "of the real rime::Config / C API config_* against the model under ASan/UBSan + direct save/load, "
-                  "get-after-set and frame monitors on the implementation"),
+                  "get-after-set, frame, conversion and aliasing monitors on the implementation"),
     "level": "proof",
-    "level_text": ("Theorems in RimeModel/Props/C18.lean, for ALL trees / paths / values (induction, no bounds): "
-                   "get_set_* (after a successful Set at any key path, incl. @N/@next/@last/@before/@after forms, reading "
-                   "the location that was written returns the value), set_frame / insert_shift (every location that "
-                   "diverges from the written one is unchanged, resp. shifted by one behind an insertion), set_fails_clean, "
-                   "getInt_setInt for every 32-bit int, the conversion table (getString∘setInt, getInt∘setString = lenient "
-                   "stoi, getBool case folding, failures leave the out-parameter alone), unescape_escape (double-quoted "
-                   "escaper round trip on all text), scalar and tree round trips parse(emit t) = norm t, and the negation "
-                   "on the minimal witnesses of the defects of the pinned tree.  The scalar-style policy the theorems are "
-                   "instantiated with (legacy EmitScalar / repaired EmitScalar) and the flow depth are re-extracted from "
-                   "the working tree on every run; an unknown shape fails closed."),
-    "level_note": ("Outside the theorem: yaml-cpp 0.7 (emitter style decisions, escaping, literal blocks, block/flow layout, "
-                   "ScanScalar's reading of literal blocks and escapes) is MODELLED from observed behaviour, not verified; "
-                   "the tie is the byte-exact comparison of the model's document with SaveToStream and of the model's "
-                   "parse with LoadFromStream on generated trees (all scalar classes x contexts), and of every Set/Get "
-                   "through rime::Config and the C API.  Keys longer than 1024 bytes or written in literal style (yaml-cpp's "
-                   "'? key' form) are covered on the implementation only.  libstdc++ stoi/strtoul/to_string as modelled; "
-                   "std::stod / %f are parameters.  Domain of 'text': UTF-8 of Unicode scalar values other than "
-                   "non-characters (yaml-cpp rewrites U+FDD0..FDEF, U+xxFFFE/F to U+FFFD); multi-line text = ends in "
-                   "exactly one LF, CR LF pairs excluded; a lone CR is content.  Memory safety: sanitizers only."),
+    "level_text": ("Theorems in RimeModel/Props/C18.lean, for ALL trees / paths / values (structural and size induction, no "
+                   "bounds): parse_emit — for every tree over the scalar domain (any shape and depth: block layout, flow layout "
+                   "with yaml-cpp's indentation padding, null entries anywhere, all three scalar styles) loading the saved "
+                   "document gives the tree with its null-valued entries removed; current_policy_total — under the EmitScalar of "
+                   "the working tree the scalar domain is ALL text (no exclusion for line structure, control characters, leading "
+                   "spaces, CR, or a root '...'); scalar_roundtrip_plain/dq/literal and unescape_escape; get_set (after a "
+                   "successful Set at any key path, incl. @N/@next/@last/@before/@after and lenient spellings, reading the "
+                   "location that was written returns the value), get_set_string/int/bool/double, set_frame (every diverging "
+                   "location unchanged), insert_shift, set_fails_clean, set_preserves_wf, getInt_setInt for every 32-bit int, the "
+                   "conversion table (getString∘setInt, getInt∘setString = lenient stoi, getBool case folding, failures leave the "
+                   "out-parameter alone), and old_*_counterexample: the four defects of the pinned tree reproduced by the model "
+                   "under the legacy policy.  The policy the theorems are instantiated with and the flow depth are re-extracted "
+                   "from the working tree on every run; an unknown shape of EmitScalar/EmitYaml/SaveToStream fails closed."),
+    "level_note": ("Outside the theorem: yaml-cpp 0.7 (emitter style decisions, escaping, literal blocks, block/flow layout and "
+                   "indentation padding, ScanScalar's reading of literal blocks, Exp::Escape) is MODELLED from observed behaviour, "
+                   "not verified; the tie is the byte-exact comparison of the model's document with SaveToStream and of the "
+                   "model's parse with LoadFromStream on generated trees (all scalar classes x all layout positions, every string "
+                   "over a 6-letter alphabet of the characters the block reader is sensitive to up to length 4/6), and of every "
+                   "Set/Get through rime::Config and the C API.  'Equal tree' = equal after removing entries with null values "
+                   "from maps AND lists (EmitYaml emits nothing for a null list element, so list indices shift on save).  Keys "
+                   "longer than 1024 bytes or written in literal style (yaml-cpp's '? key' form) are covered on the "
+                   "implementation only; keys > 1024 bytes are outside the formal reading (YAML's implicit-key limit; inside a "
+                   "flow map yaml-cpp writes them unreadably).  'Text' = UTF-8 of Unicode scalar values other than non-characters "
+                   "(yaml-cpp rewrites U+FDD0..FDEF and U+xxFFFE/F to U+FFFD in every style); multi-line text = ends in exactly "
+                   "one LF with a non-empty body, CR LF pairs excluded; a lone CR is content.  libstdc++ stoi/strtoul/to_string "
+                   "as modelled; std::stod / %f are parameters.  A behaviour-preserving rewrite of EmitScalar/EmitYaml itself is "
+                   "reported (shape recognition fails closed).  Memory safety: sanitizers only."),
     "design_ref": "DESIGN.md §3 C18",
 }
 
@@ -725,12 +733,24 @@ def expect_typecheck(before, keys):
     return True
 
 
+def strip_nul(t):
+    if isinstance(t, bytes):
+        return t.replace(b"\0", b"0")
+    if isinstance(t, list):
+        return [strip_nul(x) for x in t]
+    if isinstance(t, dict):
+        return {k.replace(b"\0", b"0"): strip_nul(v) for k, v in t.items()}
+    return t
+
+
 def gen_path_case(rng, idx):
     """a sequence of writes and reads on one config -> (ops, meta per op)"""
     mode = "api" if rng.random() < 0.5 else "cpp"
     ops, meta = ["new " + mode], [("new",)]
     if rng.random() < 0.25:
         t = rand_tree(rng, rng.randrange(0, 4))
+        if mode == "api":
+            t = strip_nul(t)       # C strings carry no NUL: config_get_string would show a prefix
         ops.append("raw " + tdump(t))
         meta.append(("raw",))
     pool = []
@@ -778,6 +798,29 @@ CONV_STRINGS = [b"0", b"1", b"-1", b"+7", b" 12", b"\t\n 3", b"12abc", b"abc", b
                 b"2147483648", b"-2147483648", b"-2147483649", b"99999999999999999999", b"-99999999999999999999", b"007", b"1.9", b"1e3",
                 b"true", b"True", b"TRUE", b"tRuE", b"false", b"FALSE", b"False", b"true ", b" true", b"yes", b"no", b"t", b"1", b"truefalse",
                 b"TRU\xc9", b"3.14", b"-2.5e3", b"inf", b"nan", b"0x1p3", b".5", b"1e999", b" 1.5x", b"e5", "\u0661\u0662".encode()]
+
+
+SMALL_ALPHABET = [b" ", b"a", b"\n", b"\t", b"\r", b"#"]
+
+
+def rand_conv_string(rng):
+    """values around the typed getters' accept/reject boundaries"""
+    r = rng.random()
+    if r < 0.25:
+        v = rng.choice([0, 1, -1, 2 ** 31 - 1, 2 ** 31, -2 ** 31, -2 ** 31 - 1, 2 ** 32, 2 ** 63, 2 ** 64, rng.randrange(-2 ** 33, 2 ** 33)])
+        return rng.choice([b"", b" ", b"\t", b"+", b"  +"]) * (v >= 0) + b"%d" % v + rng.choice([b"", b"x", b" ", b".5", b"e3", b"\x00", b"L"])
+    if r < 0.45:
+        n = rng.choice([0, 1, 8, 9, 15, 16, 17])
+        h = bytes(rng.choice(b"0123456789abcdefABCDEF") for _ in range(n))
+        return rng.choice([b"0x", b"0x", b"0X", b" 0x", b"-0x", b"0x0x"]) + h + rng.choice([b"", b"", b"g", b" ", b"\x00zz", b"."])
+    if r < 0.65:
+        w = rng.choice([b"true", b"false", b"yes", b"no", b"tru", b"truee", b"fals", b"t", b"f", b"1", b"0"])
+        w = bytes(c - 32 if 97 <= c <= 122 and rng.random() < 0.4 else c for c in w)
+        return rng.choice([b"", b"", b" "]) + w + rng.choice([b"", b"", b" ", b"\x00", b"\n"])
+    if r < 0.8:
+        return rng.choice([b"1.5", b"-2.5e3", b".5", b"5.", b"1e400", b"-1e-400", b"inf", b"-inf", b"nan", b"NAN(1)", b"infinity", b"0x1.8p1",
+                           b"1,5", b" 3.25abc", b"e", b"+.e1", b"1e", b"1e+", b"--1", b"0.000001", b"123456789.123456789"])
+    return rand_scalar(rng)[0]
 
 
 def gen_conv_case(rng, s):
@@ -845,6 +888,51 @@ def run(c):
     distinct = set()
 
     # ================================================================== part 1: save / load
+    san_abort = False
+    rt_failing = []
+    sample_trees = []
+
+    def run_trees(trees):
+        nonlocal san_abort
+        ops = []
+        for t, tag in trees:
+            ops += ["new cpp", "raw " + tdump(t), "emit", "rt"]
+        rc, iouts, ilog = impl.run(ops)
+        mouts = model_run(ops)
+        san_abort = san_abort or rc != 0
+        for i, (t, tag) in enumerate(trees):
+            io, mo = iouts[4 * i:4 * i + 4], mouts[4 * i:4 * i + 4]
+            if len(io) < 4:
+                break
+            stats["roundtrip_trees"] += 1
+            stats["by_context"][tag[1]] = stats["by_context"].get(tag[1], 0) + 1
+            dom = tree_in_domain(t)
+            m = re.match(r"rt save=(\d) load=(\d) tree=(\S+)", io[3])
+            loaded = bool(m and m.group(1) == "1" and m.group(2) == "1")
+            ok = loaded and m.group(3) == tdump(norm(t))
+            distinct.add(hash(("rt", tdump(t))))
+            if dom:
+                stats["roundtrip_in_domain"] += 1
+                if not ok and len(rt_failing) < 5000:
+                    rt_failing.append(t)
+            for j, opn in ((2, "emit"), (3, "rt")):
+                why = compare_line(opn, None, io[j], mo[j])
+                if why is None:
+                    if opn == "emit":
+                        if mo[j] == "emit unmodelled":
+                            stats["emit_unmodelled"] += 1
+                        else:
+                            stats["emit_compared"] += 1
+                    continue
+                if why == "defer":
+                    stats["rt_model_none"] += 1
+                    if ok:
+                        mismatches.append({"op": "rt", "tree": tdump(t), "impl": io[j], "model": mo[j],
+                                           "why": "the model's document does not parse in the model, the implementation round-trips"})
+                    continue
+                if len(mismatches) < 200:
+                    mismatches.append({"op": opn, "tree": tdump(t), "impl": io[j], "model": mo[j], "why": why})
+
     trees = []               # (tree, tag)
     for f in sorted(glob.glob(os.path.join(vlib.CORPUS, "C18", "*.tree"))):
         for line in open(f):
@@ -854,55 +942,76 @@ def run(c):
     for s in SYSTEMATIC_SCALARS:
         for cn, t in contexts(s):
             trees.append((t, ("sys", cn)))
-    for _ in range(1500 if quick else 20000):
-        s, cls = rand_scalar(rng)
-        stats["by_class"][cls] = stats["by_class"].get(cls, 0) + 1
-        cn, t = rng.choice(contexts(s))
-        trees.append((t, ("rand-scalar", cn)))
-    for _ in range(1500 if quick else 20000):
-        t = rand_tree(rng, rng.randrange(0, 6), allow_exotic_keys=rng.random() < 0.1)
-        trees.append((t, ("rand-tree", "depth%d" % depth_of(t))))
-    ops = []
-    for t, tag in trees:
-        ops += ["new cpp", "raw " + tdump(t), "emit", "rt"]
-    rc, iouts, ilog = impl.run(ops)
-    mouts = model_run(ops)
-    san_abort = rc != 0
-    rt_failing = []
-    for i, (t, tag) in enumerate(trees):
-        io, mo = iouts[4 * i:4 * i + 4], mouts[4 * i:4 * i + 4]
-        if len(io) < 4:
-            break
-        stats["roundtrip_trees"] += 1
-        stats["by_context"][tag[1]] = stats["by_context"].get(tag[1], 0) + 1
-        dom = tree_in_domain(t)
-        m = re.match(r"rt save=(\d) load=(\d) tree=(\S+)", io[3])
-        loaded = bool(m and m.group(1) == "1" and m.group(2) == "1")
-        ok = loaded and m.group(3) == tdump(norm(t))
-        distinct.add(("rt", tdump(t)))
-        if dom:
-            stats["roundtrip_in_domain"] += 1
-            if not ok:
-                rt_failing.append(t)
-        # K
-        for j, opn in ((2, "emit"), (3, "rt")):
-            why = compare_line(opn, None, io[j], mo[j])
-            if why is None:
-                if opn == "emit":
-                    if mo[j] == "emit unmodelled":
-                        stats["emit_unmodelled"] += 1
-                    else:
-                        stats["emit_compared"] += 1
-                continue
-            if why == "defer":
-                stats["rt_model_none"] += 1
-                if ok:
-                    mismatches.append({"op": "rt", "tree": tdump(t), "impl": io[j], "model": mo[j],
-                                       "why": "the model's document does not parse in the model, the implementation round-trips"})
-                continue
-            mismatches.append({"op": opn, "tree": tdump(t), "impl": io[j], "model": mo[j], "why": why})
+    # every string over a small alphabet of the characters the block reader is sensitive to, in three positions
+    small_len = 4 if quick else 6
+    for L in range(0, small_len + 1):
+        for tup in itertools.product(SMALL_ALPHABET, repeat=L):
+            s = b"".join(tup)
+            if b"\n" not in s and b"\r" not in s and L > 2:
+                continue         # single-line strings over this alphabet are covered by the shorter ones
+            trees.append(({b"k": s, b"z": b"z"}, ("small", "map-value")))
+            if L <= small_len - 1:
+                trees.append(([s, b"z"], ("small", "list-item")))
+                trees.append((s, ("small", "root")))
+    sample_trees = trees[::max(1, len(trees) // 5)][:3]
+    run_trees(trees)
+    n_scalars, n_trees, batch = (10000, 10000, 5000) if quick else (200000, 200000, 10000)
+    done = 0
+    while done < n_scalars + n_trees:
+        trees = []
+        for _ in range(batch):
+            if done < n_scalars:
+                s, cls = rand_scalar(rng)
+                stats["by_class"][cls] = stats["by_class"].get(cls, 0) + 1
+                cn, t = rng.choice(contexts(s))
+                trees.append((t, ("rand-scalar", cn)))
+            else:
+                t = rand_tree(rng, rng.randrange(0, 6), allow_exotic_keys=rng.random() < 0.1)
+                trees.append((t, ("rand-tree", "depth%d" % depth_of(t))))
+            done += 1
+        if done <= batch or done > n_scalars and done <= n_scalars + batch:
+            sample_trees += trees[:2]
+        run_trees(trees)
 
     # ================================================================== part 2: paths, typed values, aliases
+    def run_cases(cases):
+        nonlocal san_abort
+        ops = [x for o, m, tag in cases for x in o]
+        rc2, iouts, ilog2 = impl.run(ops)
+        mouts = model_run(ops)
+        san_abort = san_abort or rc2 != 0
+        pos = 0
+        for o, meta, tag in cases:
+            io, mo = iouts[pos:pos + len(o)], mouts[pos:pos + len(o)]
+            pos += len(o)
+            if len(io) < len(o):
+                break
+            if tag[0] == "path":
+                stats["path_cases"] += 1
+            elif tag[0] == "conv":
+                stats["conv_cases"] += 1
+            lost = False
+            case_bad = None
+            for j, opn in enumerate(o):
+                if lost:
+                    break
+                why = compare_line(opn, None, io[j], mo[j])
+                if why == "lost":
+                    lost = True
+                    continue
+                if why == "defer":
+                    stats["rt_model_none"] += 1
+                    continue
+                if why is not None and case_bad is None:
+                    case_bad = {"ops": o[:j + 1], "op": opn, "impl": io[j], "model": mo[j], "why": why}
+            if case_bad and len(mismatches) < 200:
+                mismatches.append(case_bad)
+            # O on the implementation's outputs
+            bad = monitor_case(o, meta, io, stats, distinct) if meta is not None else monitor_ops_only(o, io)
+            if bad:
+                sig, what = bad
+                o_fail.setdefault(sig, {"ops": o, "what": what})
+
     cases = []
     for f in sorted(glob.glob(os.path.join(vlib.CORPUS, "C18", "*.ops"))):
         o = [l.strip() for l in open(f) if l.strip() and not l.startswith("#")]
@@ -910,44 +1019,19 @@ def run(c):
     for s in CONV_STRINGS:
         o, m = gen_conv_case(rng, s)
         cases.append((o, m, ("conv",)))
-    for i in range(1200 if quick else 15000):
-        o, m = gen_path_case(rng, i)
-        cases.append((o, m, ("path",)))
-    ops = [x for o, m, tag in cases for x in o]
-    rc2, iouts, ilog2 = impl.run(ops)
-    mouts = model_run(ops)
-    san_abort = san_abort or rc2 != 0
-    pos = 0
-    for o, meta, tag in cases:
-        io, mo = iouts[pos:pos + len(o)], mouts[pos:pos + len(o)]
-        pos += len(o)
-        if len(io) < len(o):
-            break
-        if tag[0] == "path":
-            stats["path_cases"] += 1
-        elif tag[0] == "conv":
-            stats["conv_cases"] += 1
-        lost = False
-        case_bad = None
-        for j, opn in enumerate(o):
-            if lost:
-                break
-            why = compare_line(opn, None, io[j], mo[j])
-            if why == "lost":
-                lost = True
-                continue
-            if why == "defer":
-                stats["rt_model_none"] += 1
-                continue
-            if why is not None and case_bad is None:
-                case_bad = {"ops": o[:j + 1], "op": opn, "impl": io[j], "model": mo[j], "why": why}
-        if case_bad:
-            mismatches.append(case_bad)
-        # O on the implementation's outputs
-        bad = monitor_case(o, meta, io, stats, distinct) if meta is not None else monitor_ops_only(o, io)
-        if bad:
-            sig, what = bad
-            o_fail.setdefault(sig, {"ops": o, "what": what})
+    for _ in range(300 if quick else 5000):
+        o, m = gen_conv_case(rng, rand_conv_string(rng))
+        cases.append((o, m, ("conv",)))
+    run_cases(cases)
+    n_cases, batch = (8000, 4000) if quick else (150000, 10000)
+    done = 0
+    while done < n_cases:
+        cases = []
+        for i in range(min(batch, n_cases - done)):
+            o, m = gen_path_case(rng, done + i)
+            cases.append((o, m, ("path",)))
+        done += len(cases)
+        run_cases(cases)
 
     # ================================================================== verdicts
     # save/load failures: shrink each to a minimal tree, classify, one report per class
@@ -999,7 +1083,7 @@ def run(c):
         "evaluations": impl.evaluations, "distinct_nontrivial": len(distinct),
         "rule": ("one evaluation = one op executed by the real library. non-trivial = a save/load of a distinct tree, or a Set "
                  "with its before/after dumps; distinct by (tree dump) resp. (before dump, path, value)"),
-        "samples": [{"tree": tdump(t), "tag": list(tag)} for t, tag in trees[::max(1, len(trees) // 5)][:6]],
+        "samples": [{"tree": tdump(t)[:400], "tag": list(tag)} for t, tag in sample_trees[:7]],
         "generator_version": GENERATOR_VERSION, "source_hash": vlib.source_hash(SRC_FILES),
         "policy_in_source": {0: "legacy", 1: "safe"}.get(gen["emitScalarShape"], "unknown"), "flow_depth_in_source": gen["flowDepth"],
         "translator": gen, "stats": stats, "correspondence_mismatches": len(mismatches),
@@ -1033,7 +1117,7 @@ def monitor_case(ops, meta, outs, stats, distinct):
         elif k == "dump-after":
             after = tundump(o[5:])
             path, ty, item, ret = last_set
-            distinct.add(("set", tdump(before), path, ty, tdump(item) if not isinstance(item, bytes) else item))
+            distinct.add(hash(("set", tdump(before), path, ty, tdump(item) if not isinstance(item, bytes) else item)))
             keys = canon_steps(path)
             if ret == "ret=0":
                 stats["set_ret0"] += 1
